@@ -161,6 +161,9 @@ class DnsRecordDnskey(ParsableBase, Serializable):
     def parse_key(cls, parsable, dnssec_algorithm):
         key_parser = ParserBinary(parsable)
 
+        if not isinstance(dnssec_algorithm.value.algorithm, Signature):
+            raise InvalidValue(dnssec_algorithm.value.algorithm, cls, 'algorithm_type')
+
         public_key_type = dnssec_algorithm.value.algorithm.value.key_type
         if public_key_type == Authentication.RSA:
             public_key = cls._parse_public_key_rsa(key_parser)
